@@ -77,55 +77,133 @@ theorem ansRel_of_sim {tmpl : Term} {N : Nat} {env : Env} {σ : Subst} {π : Nat
 
 /-! ### states and specifications -/
 
-/-- the program is loaded (nothing in the fragment changes the procedure table) -/
-def StOK (prog : List Term) (m : MS) : Prop := m.user.procs = (initState prog none).procs
+/-- the program is loaded (nothing in the fragment changes the procedure table); ids are positive -/
+def StOK (prog : List Term) (m : MS) : Prop :=
+  m.user.procs = (initState prog none).procs ∧ 0 < m.user.nextId
 
 theorem lookupProc_stOK {prog : List Term} {m : MS} (h : StOK prog m) (f : String) (n : Nat) :
     lookupProc m.user f n = lookupProc (initState prog none) f n := by
-  unfold lookupProc; rw [h]
+  unfold lookupProc; rw [h.1]
 
 /-- the reference's clause list -/
 def progS (prog : List Term) : List Term := prog.flatMap SLD.splitClause ++ SLD.library
 
-/-- a continuation point of the VM (`K` under `env`, variable counter at least `nvar`) against a
-    configuration of the reference (`R`, `q`, `nv`); `P` says more about σ, π, D -/
-def SimAt (tmpl : Term) (max : Nat) (K : Cont) (env : Env) (nvar : Nat) (R : List SLD.Frame) (q : Term)
-    (nv : Nat) (P : Subst → (Nat → Nat) → (Nat → Prop) → Prop) : Prop :=
-  ∃ N σ π D G, N ≤ nvar ∧ SimW tmpl N env σ π D nv ∧ ContGoals tmpl max K G ∧ GRel σ π D G R ∧
-    q = img σ π tmpl ∧ P σ π D
+/-! ### levels -/
 
-theorem SimAt.mono {tmpl : Term} {max : Nat} {K : Cont} {env : Env} {nvar nvar' : Nat} {R : List SLD.Frame}
+def isCut (it : Term × Nat) : Prop := it.1 = .atom "!"
+
+/-- the cut goals among the pending goals have a level, and the levels do not increase along the
+    list (the goals of inner activations come first) -/
+def CutsOK (lv : Lv) (G : List (Term × Nat)) : Prop :=
+  (∀ it ∈ G, isCut it → ∃ l, lv.lev it.2 = some l) ∧
+  G.Pairwise (fun a b => isCut a → isCut b → ∀ la lb, lv.lev a.2 = some la → lv.lev b.2 = some lb → lb ≤ la)
+
+theorem CutsOK.nil (lv : Lv) : CutsOK lv [] := ⟨fun _ h => by simp at h, .nil⟩
+
+theorem CutsOK.tail {lv : Lv} {it : Term × Nat} {G : List (Term × Nat)} (h : CutsOK lv (it :: G)) : CutsOK lv G :=
+  ⟨fun it' h' => h.1 it' (by simp [h']), (List.pairwise_cons.1 h.2).2⟩
+
+/-- the path's level map is in order: ids distinct and non-zero, levels strictly decreasing outward,
+    all below the current depth `d` -/
+structure LvOK (lv : Lv) (d : Nat) : Prop where
+  nodup : (lv.map Prod.fst).Nodup
+  nz : ∀ e ∈ lv, e.1 ≠ 0
+  mono : lv.Pairwise (fun a b => ∀ la lb, a.2 = some la → b.2 = some lb → lb < la)
+  below : ∀ e ∈ lv, ∀ l, e.2 = some l → l < d
+
+theorem lookup_of_mem_nodup {α β : Type} [BEq α] [LawfulBEq α] : ∀ {l : List (α × β)} {e : α × β},
+    (l.map Prod.fst).Nodup → e ∈ l → l.lookup e.1 = some e.2
+  | [], _, _, h => by simp at h
+  | (a, b) :: l, e, hn, h => by
+    simp only [List.map_cons, List.nodup_cons] at hn
+    rcases List.mem_cons.1 h with rfl | h'
+    · simp [List.lookup]
+    · have hne : (e.1 == a) = false := by
+        simp only [beq_eq_false_iff_ne, ne_eq]
+        intro heq
+        exact hn.1 (heq ▸ List.mem_map_of_mem h')
+      simp only [List.lookup, hne]
+      exact lookup_of_mem_nodup hn.2 h'
+
+theorem mem_of_lookup {α β : Type} [BEq α] [LawfulBEq α] : ∀ {l : List (α × β)} {a : α} {b : β},
+    l.lookup a = some b → (a, b) ∈ l
+  | [], _, _, h => by simp [List.lookup] at h
+  | (a', b') :: l, a, b, h => by
+    simp only [List.lookup] at h
+    split at h
+    · rename_i heq
+      simp only [Option.some.injEq] at h
+      simp only [beq_iff_eq] at heq
+      subst h; subst heq
+      simp
+    · exact List.mem_cons_of_mem _ (mem_of_lookup h)
+
+theorem Lv.lev_of_mem {lv : Lv} {e : Nat × Option Nat} (hn : (lv.map Prod.fst).Nodup) (h : e ∈ lv) :
+    lv.lev e.1 = e.2 := by
+  unfold Lv.lev
+  rw [lookup_of_mem_nodup hn h]; rfl
+
+theorem Lv.mem_of_lev {lv : Lv} {c l : Nat} (h : lv.lev c = some l) : (c, some l) ∈ lv := by
+  unfold Lv.lev at h
+  cases hl : lv.lookup c with
+  | none => rw [hl] at h; cases h
+  | some o =>
+    rw [hl] at h
+    simp only [Option.getD_some] at h
+    subst h
+    exact mem_of_lookup hl
+
+/-- a continuation point of the VM (`K` under `env`, variable counter at least `nvar`) against a
+    configuration of the reference (`R`, `q`, `nv`) on a path with level map `lv`; `P` says more
+    about σ, π, D -/
+def SimAt (tmpl : Term) (max : Nat) (lv : Lv) (K : Cont) (env : Env) (nvar : Nat) (R : List SLD.Frame) (q : Term)
+    (nv : Nat) (P : Subst → (Nat → Nat) → (Nat → Prop) → Prop) : Prop :=
+  ∃ N σ π D G, N ≤ nvar ∧ SimW tmpl N env σ π D nv ∧ ContGoals tmpl max K G ∧ GRel lv σ π D G R ∧
+    CutsOK lv G ∧ q = img σ π tmpl ∧ P σ π D
+
+theorem SimAt.mono {tmpl : Term} {max : Nat} {lv : Lv} {K : Cont} {env : Env} {nvar nvar' : Nat} {R : List SLD.Frame}
     {q : Term} {nv : Nat} {P : Subst → (Nat → Nat) → (Nat → Prop) → Prop}
-    (h : SimAt tmpl max K env nvar R q nv P) (hn : nvar ≤ nvar') : SimAt tmpl max K env nvar' R q nv P := by
+    (h : SimAt tmpl max lv K env nvar R q nv P) (hn : nvar ≤ nvar') : SimAt tmpl max lv K env nvar' R q nv P := by
   obtain ⟨N, σ, π, D, G, h1, h2⟩ := h
   exact ⟨N, σ, π, D, G, Nat.le_trans h1 hn, h2⟩
 
 def errT (F c : Term) : Term := .app "error" (.cons F (.cons c .nil))
 
-/-- what the search below a promise `p` (in state `m`, `ans0` the answers when the corresponding
-    reference computation started) has to deliver: the result `r` of that computation -/
-inductive PSpec (tmpl : Term) (max : Nat) (prog : List Term) : Pr → MS → List Term → SLD.Res → Prop
-  | fail {m : MS} {ans0 : List Term} : m.user.answers = ans0 → PSpec tmpl max prog failP m ans0 ⟨[], .exhausted⟩
-  | answer {m : MS} {ans0 : List Term} {a q : Term} : m.user.answers = a :: ans0 → AnsRel tmpl a q →
-      PSpec tmpl max prog (if (a :: ans0).length ≥ max then okP else failP) m ans0
+/-- what the search below a promise `p` (in state `m`, on a path with level map `lv`, `ans0` the
+    answers when the corresponding reference computation — at depth `d` — started) has to deliver:
+    the result `r` of that computation -/
+inductive PSpec (tmpl : Term) (max : Nat) (prog : List Term) : Lv → Nat → Pr → MS → List Term → SLD.Res → Prop
+  | fail {lv : Lv} {d : Nat} {m : MS} {ans0 : List Term} : m.user.answers = ans0 →
+      PSpec tmpl max prog lv d failP m ans0 ⟨[], .exhausted⟩
+  | answer {lv : Lv} {d : Nat} {m : MS} {ans0 : List Term} {a q : Term} : m.user.answers = a :: ans0 → AnsRel tmpl a q →
+      PSpec tmpl max prog lv d (if (a :: ans0).length ≥ max then okP else failP) m ans0
         ⟨[q], if max - ans0.length = 1 then .full else .exhausted⟩
-  | err {m : MS} {ans0 : List Term} {F c1 c2 : Term} : m.user.answers = ans0 →
-      PSpec tmpl max prog (errP (.exc (errT F c1))) m ans0 ⟨[], .raised (errT F c2) []⟩
-  | alts {m : MS} {ans0 : List Term} {id : Nat} {cs : List Term} {g g2 : Term} {K : Cont} {env : Env}
+  | err {lv : Lv} {d : Nat} {m : MS} {ans0 : List Term} {F c1 c2 : Term} : m.user.answers = ans0 →
+      PSpec tmpl max prog lv d (errP (.exc (errT F c1))) m ans0 ⟨[], .raised (errT F c2) []⟩
+  | alts {lv : Lv} {m : MS} {ans0 : List Term} {id : Nat} {cs : List Term} {g g2 : Term} {K : Cont} {env : Env}
       {R : List SLD.Frame} {q : Term} {nv n d : Nat} {r : SLD.Res} :
-      m.user.answers = ans0 →
-      (∀ c ∈ cs, hornClause c = true ∧ headKey c = (functorName g, (argList g).length)) →
+      m.user.answers = ans0 → id ≠ 0 →
+      (∀ c ∈ cs, clauseOK c = true ∧ headKey c = (functorName g, (argList g).length)) →
       Shape g →
-      SimAt tmpl max K env m.user.nextVar R q nv (fun σ π D => InD D g ∧ g2 = img σ π g) →
+      SimAt tmpl max lv K env m.user.nextVar R q nv (fun σ π D => InD D g ∧ g2 = img σ π g) →
       SLD.solveAlts false (progS prog) n d nv (cs.map (fun c => .clause g2 (ruleOf c))) R q (max - ans0.length) = some r →
-      PSpec tmpl max prog { id := id, delayed := cs.map (fun c => Thunk.clause (clauseOf c) (argList g) K env id) }
+      PSpec tmpl max prog lv d { id := id, delayed := cs.map (fun c => Thunk.clause (clauseOf c) (argList g) K env id) }
         m ans0 r
-  | direct {m : MS} {ans0 : List Term} {id : Nat} {ct : Clause} {K : Cont} {env : Env}
+  | direct {lv : Lv} {m : MS} {ans0 : List Term} {id : Nat} {ct : Clause} {K : Cont} {env : Env}
       {R : List SLD.Frame} {q : Term} {nv n d : Nat} {r : SLD.Res} :
-      m.user.answers = ans0 → ct.code = [.exit] → ct.vars = [] →
-      SimAt tmpl max K env m.user.nextVar R q nv (fun _ _ _ => True) →
+      m.user.answers = ans0 → id ≠ 0 → ct.code = [.exit] → ct.vars = [] →
+      SimAt tmpl max lv K env m.user.nextVar R q nv (fun _ _ _ => True) →
       SLD.solve false (progS prog) n d nv R q (max - ans0.length) = some r →
-      PSpec tmpl max prog { id := id, delayed := [Thunk.clause ct [] K env id] } m ans0 r
+      PSpec tmpl max prog lv d { id := id, delayed := [Thunk.clause ct [] K env id] } m ans0 r
+  | cut {lv : Lv} {m : MS} {ans0 : List Term} {pc : List Op} {vars : List Nat} {k : Cont} {cp l : Nat} {env : Env}
+      {R : List SLD.Frame} {q : Term} {nv n d : Nat} {r : SLD.Res}
+      {N : Nat} {σ : Subst} {π : Nat → Nat} {D : Nat → Prop} {G' : List (Term × Nat)} :
+      m.user.answers = ans0 → lv.lev cp = some l →
+      N ≤ m.user.nextVar → SimW tmpl N env σ π D nv → ContGoals tmpl max (.exec pc vars cp k) G' →
+      GRel lv σ π D G' R → CutsOK lv G' → q = img σ π tmpl →
+      (∀ it ∈ G', isCut it → ∀ l', lv.lev it.2 = some l' → l' ≤ l) →
+      SLD.solve false (progS prog) n d nv R q (max - ans0.length) = some r →
+      PSpec tmpl max prog lv d (cutPromise pc vars k env cp) m ans0 (SLD.afterCut l r)
 
 /-! ### the bootstrap clause `true.` -/
 
@@ -162,11 +240,12 @@ theorem functor_img {σ : Subst} {π : Nat → Nat} {g : Term} (hg : Shape g) :
   · refine ⟨((as.subst σ).rename π).toList, rfl, ?_⟩
     simp [argList, Args.rename, Args.length_subst]
 
-theorem GRel.congr {σ σ' : Subst} {π π' : Nat → Nat} {D : Nat → Prop} {G : List Term} {R : List SLD.Frame}
-    (h : GRel σ π D G R) (heq : ∀ t, InD D t → img σ' π' t = img σ π t) : GRel σ' π' D G R := by
+theorem GRel.congr {lv : Lv} {σ σ' : Subst} {π π' : Nat → Nat} {D : Nat → Prop} {G : List (Term × Nat)}
+    {R : List SLD.Frame}
+    (h : GRel lv σ π D G R) (heq : ∀ t, InD D t → img σ' π' t = img σ π t) : GRel lv σ' π' D G R := by
   refine Forall2.imp h ?_
-  rintro g fr ⟨hg, l, rfl⟩
-  exact ⟨hg, l, by rw [heq g hg]⟩
+  rintro g fr ⟨hg, l, rfl, hl⟩
+  exact ⟨hg, l, by rw [heq g.1 hg], hl⟩
 
 /-! ### `mkErr` keeps a closed formal -/
 
